@@ -54,6 +54,9 @@ class Artifact(_Observable):
         super(Artifact, self)._check_object_constraints()
         self._check_mutually_exclusive_properties(['payload_bin', 'url'])
         self._check_properties_dependency(['hashes'], ['url'])
+        # "decryption_key MUST NOT be present when the encryption_algorithm
+        # property is absent"
+        self._check_properties_dependency(['encryption_algorithm'], ['decryption_key'])
 
 
 class AutonomousSystem(_Observable):
